@@ -364,12 +364,14 @@ findTypeLoop:
 
 	// If needed, reorder the chunks or introduce extension records.
 	isTooLarge := false
-	var total uint32
+	var total, base uint32
 	for i := range chunks {
-		code := chunks[i].code
-		if code&chunkTypeMask == chunkTable && total > 0xFFFF {
-			isTooLarge = true
-			break
+		switch chunks[i].code & chunkTypeMask {
+		case chunkTable:
+			isTooLarge = isTooLarge || total > 0xFFFF
+			base = total
+		case chunkSubtable: // subtable offsets are relative to the lookup table
+			isTooLarge = isTooLarge || total-base > 0xFFFF
 		}
 		total += chunks[i].size
 	}
@@ -461,6 +463,9 @@ func (ll LookupList) tryReorder(chunks []layoutChunk) []layoutChunk {
 	}
 
 	lookupSize := make(map[chunkCode]uint32)
+	headerSize := make(map[chunkCode]uint32)
+	replace := make(map[chunkCode]bool)
+	extra := 0
 	var lookups []chunkCode
 	for i := range chunks {
 		code := chunks[i].code
@@ -470,8 +475,20 @@ func (ll LookupList) tryReorder(chunks []layoutChunk) []layoutChunk {
 			continue
 		} else if tp == chunkTable {
 			lookups = append(lookups, tCode)
+			headerSize[tCode] = chunks[i].size
+		} else if lookupSize[tCode] > 0xFFFF {
+			// The 16-bit offset of this subtable would overflow.
+			replace[tCode] = true
 		}
 		lookupSize[tCode] += chunks[i].size
+	}
+	for tCode := range replace {
+		// All subtables of this lookup become extension subtables.
+		n := len(ll[tCode>>14].Subtables)
+		newSize := headerSize[tCode] + 8*uint32(n)
+		extra += n
+		total -= lookupSize[tCode] - newSize
+		lookupSize[tCode] = newSize
 	}
 	sort.SliceStable(lookups, func(i, j int) bool {
 		return lookupSize[lookups[i]] < lookupSize[lookups[j]]
@@ -482,8 +499,6 @@ func (ll LookupList) tryReorder(chunks []layoutChunk) []layoutChunk {
 	biggestLookup := lookups[len(lookups)-1]
 	lastPos := total - lookupSize[biggestLookup]
 	idx := len(lookups) - 2
-	replace := make(map[chunkCode]bool)
-	extra := 0
 	for lastPos > 0xFFFF && idx >= 0 {
 		tCode := lookups[idx]
 
@@ -510,26 +525,17 @@ func (ll LookupList) tryReorder(chunks []layoutChunk) []layoutChunk {
 	res := make([]layoutChunk, 0, len(chunks)+extra)
 	var moved, ext []layoutChunk
 	for _, chunk := range chunks {
-		code := chunk.code
-		tp := code & chunkTypeMask
-		tCode := code & chunkTableMask
-		switch {
-		case tp == chunkHeader:
-			res = append(res, chunk)
-		case tCode == biggestLookup:
-			moved = append(moved, chunk)
-		case replace[tCode]:
-			sCode := code & chunkSubtableMask
-			if tp == chunkSubtable {
-				res = append(res, layoutChunk{
-					code: chunkExtReplace | tCode | sCode,
-					size: 8,
-				})
-				ext = append(ext, chunk)
-			} else {
-				res = append(res, chunk)
+		tCode := chunk.code & chunkTableMask
+		if chunk.code&chunkTypeMask == chunkSubtable && replace[tCode] {
+			ext = append(ext, chunk)
+			chunk = layoutChunk{
+				code: chunkExtReplace | tCode | chunk.code&chunkSubtableMask,
+				size: 8,
 			}
-		default:
+		}
+		if chunk.code&chunkTypeMask != chunkHeader && tCode == biggestLookup {
+			moved = append(moved, chunk)
+		} else {
 			res = append(res, chunk)
 		}
 	}
